@@ -1,17 +1,253 @@
-// Package vx: nondeterministic inputs and assertions for harnesses.
-// Under the symbolic engine every function here is intercepted; the bodies are the native (replay) mode.
+//go:build verif
+
+// Package vx: nondeterministic inputs, assumptions and assertions for the
+// verification harnesses (package zz_verif).
+//
+// Two executions of the same harness exist:
+//   - under the symbolic engine (/verif/engine, "gosx") every function of this
+//     package is intercepted: Int/Bool/Bytes/... return fresh SMT variables,
+//     Choice forks the path, Assert becomes a solver obligation;
+//   - natively (this file): the values come from a model.json written by the
+//     engine (env VX_MODEL), so that a counterexample - or a passing path that
+//     is being cross-validated - is replayed against the real build.
+//
+// Values are addressed by name plus occurrence index ("n#0", "n#1", ...), in
+// the order the harness asks for them, which is the same in both executions.
 package vx
 
-import "github.com/ipfs/go-cid"
+import (
+	"encoding/json"
+	"fmt"
+	"os"
+	"sort"
+	"sync"
 
-func Int(name string) int                       { panic("native mode not implemented in spike") }
-func IntRange(name string, lo, hi int) int      { panic("native") }
-func Bool(name string) bool                     { panic("native") }
-func Choice(name string, n int) int             { panic("native") }
-func Bytes(name string, maxLen int) []byte      { panic("native") }
-func Cid(i int) cid.Cid                         { panic("native") }
-func FreshCid() cid.Cid                         { panic("native") }
-func Assume(c bool)                             {}
-func Assert(prop string, c bool, msg string)    {}
-func Cover(label string)                        {}
-func Observe(key string, v interface{})         {}
+	"github.com/ipfs/go-cid"
+	mh "github.com/multiformats/go-multihash"
+)
+
+type model struct {
+	Fn      string              `json:"fn"`
+	Params  map[string]int      `json:"params"`
+	Vals    map[string]uint64   `json:"vals"`    // name#k -> value (ints as two's complement, bools 0/1, choices)
+	Bytes   map[string][]uint64 `json:"bytes"`   // name#k -> byte values
+	Ranks   map[string]uint64   `json:"ranks"`   // atom key -> rank of its String() form
+	Expect  []string            `json:"expect"`  // failure signatures the engine predicts (informational)
+	ObsWant []string            `json:"obs"`     // observation stream the engine predicts (informational)
+}
+
+var (
+	mu       sync.Mutex
+	mdl      *model
+	cnt      = map[string]int{}
+	cidByKey = map[string]cid.Cid{}
+	pool     []cid.Cid
+	poolNext int
+	Failures []string
+	sigs     []string
+)
+
+// Load reads the model (called by the replay test).
+func Load(path string) error {
+	b, err := os.ReadFile(path)
+	if err != nil {
+		return err
+	}
+	m := &model{}
+	if err := json.Unmarshal(b, m); err != nil {
+		return err
+	}
+	mu.Lock()
+	defer mu.Unlock()
+	mdl = m
+	cnt = map[string]int{}
+	cidByKey = map[string]cid.Cid{}
+	Failures = nil
+	sigs = nil
+	// CID pool: real CIDs whose String() order realises the model's rank order.
+	n := len(m.Ranks) + 256
+	pool = make([]cid.Cid, 0, n)
+	for i := 0; i < n; i++ {
+		h, err := mh.Sum([]byte(fmt.Sprintf("vx-atom-%d", i)), mh.SHA2_256, -1)
+		if err != nil {
+			return err
+		}
+		pool = append(pool, cid.NewCidV1(cid.DagCBOR, h))
+	}
+	sort.Slice(pool, func(i, j int) bool { return pool[i].String() < pool[j].String() })
+	keys := make([]string, 0, len(m.Ranks))
+	for k := range m.Ranks {
+		keys = append(keys, k)
+	}
+	sort.Slice(keys, func(i, j int) bool {
+		if m.Ranks[keys[i]] != m.Ranks[keys[j]] {
+			return m.Ranks[keys[i]] < m.Ranks[keys[j]]
+		}
+		return keys[i] < keys[j]
+	})
+	// spread the ranked atoms over the pool so that unranked atoms can still be handed out
+	for i, k := range keys {
+		cidByKey[k] = pool[i]
+	}
+	poolNext = len(keys)
+	return nil
+}
+
+func FnName() string { return mdl.Fn }
+
+func next(name string) string {
+	k := cnt[name]
+	cnt[name] = k + 1
+	return fmt.Sprintf("%s#%d", name, k)
+}
+
+func val(name string) uint64 {
+	mu.Lock()
+	defer mu.Unlock()
+	if mdl == nil {
+		panic("vx: native mode without model")
+	}
+	return mdl.Vals[next(name)]
+}
+
+// Param is a bound fixed per registered run (not symbolic).
+func Param(name string, def int) int {
+	mu.Lock()
+	defer mu.Unlock()
+	if mdl != nil {
+		if v, ok := mdl.Params[name]; ok {
+			return v
+		}
+	}
+	return def
+}
+
+func Int(name string) int                  { return int(int64(val(name))) }
+func IntRange(name string, lo, hi int) int { return int(int64(val(name))) }
+func Uint64(name string) uint64            { return val(name) }
+func Bool(name string) bool                { return val(name) != 0 }
+func Byte(name string) byte                { return byte(val(name)) }
+func Choice(name string, n int) int        { return int(val(name)) }
+
+// Bytes returns a byte string of symbolic length 0..maxLen with symbolic content.
+func Bytes(name string, maxLen int) []byte {
+	mu.Lock()
+	defer mu.Unlock()
+	vs := mdl.Bytes[next(name)]
+	out := make([]byte, len(vs))
+	for i, v := range vs {
+		out[i] = byte(v)
+	}
+	return out
+}
+
+// BytesN returns exactly n symbolic bytes.
+func BytesN(name string, n int) []byte {
+	mu.Lock()
+	defer mu.Unlock()
+	vs := mdl.Bytes[next(name)]
+	out := make([]byte, n)
+	for i := range out {
+		if i < len(vs) {
+			out[i] = byte(vs[i])
+		}
+	}
+	return out
+}
+
+func cidFor(key string) cid.Cid {
+	mu.Lock()
+	defer mu.Unlock()
+	if c, ok := cidByKey[key]; ok {
+		return c
+	}
+	c := pool[poolNext]
+	poolNext++
+	cidByKey[key] = c
+	return c
+}
+
+// Cid returns the i-th named atom CID (same i, same CID).
+func Cid(i int) cid.Cid { return cidFor(fmt.Sprintf("c%d", i)) }
+
+// FreshCid returns a CID distinct from every other one handed out.
+func FreshCid() cid.Cid {
+	mu.Lock()
+	k := next("f")
+	mu.Unlock()
+	return cidFor(k)
+}
+
+func Assume(c bool) {
+	if !c {
+		fmt.Println("VX-ASSUME-FALSE")
+		panic(assumeFalse{})
+	}
+}
+
+type assumeFalse struct{}
+
+// IsAssumeFalse reports whether a recovered panic value stems from a false assumption.
+func IsAssumeFalse(r interface{}) bool { _, ok := r.(assumeFalse); return ok }
+
+// Sig adds a tag to the signature of every later violation on this path.
+func Sig(tag string) {
+	mu.Lock()
+	sigs = append(sigs, tag)
+	mu.Unlock()
+}
+
+// TagSuffix renders the active signature tags (" | t1 | t2").
+func TagSuffix() string {
+	mu.Lock()
+	defer mu.Unlock()
+	s := ""
+	for _, t := range sigs {
+		s += " | " + t
+	}
+	return s
+}
+
+func Assert(prop string, c bool, msg string) {
+	if c {
+		return
+	}
+	mu.Lock()
+	s := prop + " | " + msg
+	for _, t := range sigs {
+		s += " | " + t
+	}
+	Failures = append(Failures, s)
+	mu.Unlock()
+	fmt.Println("VX-ASSERT-FAILED " + s)
+}
+
+func Cover(label string) {}
+
+func Observe(key string, v int)       { fmt.Printf("VX-OBS %s=%d\n", key, v) }
+func ObserveS(key string, s string)   { fmt.Printf("VX-OBS %s=%s\n", key, s) }
+func ObserveB(key string, b bool)     { fmt.Printf("VX-OBS %s=%v\n", key, b) }
+
+// branch-free connectives (one SMT term under the engine)
+func And(a, b bool) bool     { return a && b }
+func Or(a, b bool) bool      { return a || b }
+func Not(a bool) bool        { return !a }
+func Implies(a, b bool) bool { return !a || b }
+func Ite(c bool, a, b int) int {
+	if c {
+		return a
+	}
+	return b
+}
+func Sgn(x int) int {
+	switch {
+	case x < 0:
+		return -1
+	case x > 0:
+		return 1
+	}
+	return 0
+}
+
+// Yield is a scheduling point for the engine's exploring scheduler.
+func Yield() {}
